@@ -173,6 +173,9 @@ func genFaults(rng *mrand.Rand, n int, tier string, w *bufio.Writer) {
 			} else if (mode == "silence" || strings.HasPrefix(mode, "slow") || mode == "refuse" || mode == "ok:200:10") && chance(rng, 35) && !bufreq {
 				client = "expect"
 			}
+			if i == 9 && chance(rng, 50) {
+				fmt.Fprintf(w, "pausedabort\n")
+			}
 			fmt.Fprintf(w, "fault mode=%s client=%s method=%s path=%s query=%s host=%s hdr=%s\n", mode, client, pick(rng, []string{"GET", "POST"}),
 				hexB([]byte(path)), hexB([]byte(query)), hexB([]byte(host)), hexB([]byte(pick(rng, []string{"", "v1"}))))
 		}
@@ -392,6 +395,31 @@ func runFaults(t *testing.T, fx *fixtures, c verifCase, w *bufio.Writer) {
 				}
 				fmt.Fprintf(w, "fault status=%s complete=%s page=%s bodylen=%s at=%d log=[%s] residue=%d%s\n", status, b2s(res.complete), page, bodylen,
 					elapsed.Nanoseconds(), logStr, residue, ifStr(res.extra != "", " "+res.extra))
+			case "pausedabort":
+				// the paused-out and the client-abort endings together: a request is held by a pause, its client gives
+				// up, nobody resumes; the one access-log record must say what happened (504 when the pause expired)
+				logs.mu.Lock()
+				logs.recs = nil
+				logs.mu.Unlock()
+				router.PauseService("flt", time.Second, time.Second)
+				cli, srvSide := net.Pipe()
+				front.ch <- srvSide
+				go func() {
+					fmt.Fprintf(cli, "GET /held HTTP/1.1\r\nHost: f.test\r\nX-Request-ID: pa-1\r\n\r\n")
+					time.Sleep(100 * time.Millisecond)
+					cli.Close()
+				}()
+				time.Sleep(3 * time.Second)
+				synctest.Wait()
+				logs.mu.Lock()
+				recs := append([]map[string]any{}, logs.recs...)
+				logs.mu.Unlock()
+				out := fmt.Sprintf("pausedabort n=%d", len(recs))
+				if len(recs) > 0 {
+					out += fmt.Sprintf(" status=%v service=%v target=%v path=%v", recs[0]["status"], recs[0]["service"], recs[0]["target"], recs[0]["path"])
+				}
+				router.ResumeService("flt")
+				fmt.Fprintln(w, out)
 			case "drain":
 				// a later drain must not wait for anything a failed request left behind
 				start := time.Now()
